@@ -14,6 +14,9 @@ use serde_json::{json, Value};
 use std::sync::Mutex;
 
 pub const ROS_LIMIT: u64 = 150;
+/// per-system state cap of the family being explored (systems that exceed it are counted as
+/// truncated; a violation reached before the cap is still reported)
+pub static STATE_CAP: std::sync::atomic::AtomicUsize = std::sync::atomic::AtomicUsize::new(2_000_000);
 
 pub type AC1 = (ArrSpec, u64);
 
@@ -282,7 +285,7 @@ pub fn check_system(ctx: &Ctx, sys: &RosSys, item: u64, acc: &mut Acc, found: &m
     let spec = sys.exec_spec();
     let n = spec.cbs.len();
     let m = Model::new(&spec, &b, 5);
-    let st = engine::explore(&m, 2_000_000);
+    let st = engine::explore(&m, STATE_CAP.load(std::sync::atomic::Ordering::Relaxed));
     acc.systems += 1;
     acc.states += st.states as u64;
     acc.transitions += st.transitions as u64;
@@ -471,6 +474,8 @@ fn grid(tmin: u64, tmax: u64, jmax: u64, cmax: u64, curves: bool) -> Vec<AC1> {
 pub struct Family {
     pub name: String,
     pub total: u64,
+    /// per-system state cap
+    pub cap: usize,
     pub make: Box<dyn Fn(u64) -> Option<RosSys> + Sync + Send>,
 }
 
@@ -487,6 +492,7 @@ fn indep_family(name: &str, sub: Option<bool>, shapes: Vec<(usize, usize)>, per:
         fams.push(Family {
             name: nm,
             total,
+            cap: 2_000_000,
             make: Box::new(move |idx| {
                 let si = (idx % sups.len() as u64) as usize;
                 let rest = idx / sups.len() as u64;
@@ -536,6 +542,7 @@ fn chain_family(name: &str, m: usize, srcs: Vec<ArrSpec>, cmax: u64, others: Vec
     Family {
         name: name.to_string(),
         total,
+        cap: 2_000_000,
         make: Box::new(move |mut idx| {
             let si = (idx % sups.len() as u64) as usize;
             idx /= sups.len() as u64;
@@ -574,6 +581,7 @@ fn fifo_family(name: &str, n: usize, per: Vec<AC1>, sups: Vec<SupplySpec>) -> Fa
     Family {
         name: name.to_string(),
         total,
+        cap: 2_000_000,
         make: Box::new(move |idx| {
             let si = (idx % sups.len() as u64) as usize;
             let sel = product_index(idx / sups.len() as u64, per.len(), n);
@@ -619,6 +627,15 @@ pub fn families(id: &str, quick: bool) -> Vec<Family> {
                     f.extend(indep_family(&format!("{nm} T3..8 J<=2 C<=2"), Some(bw), vec![(1, 1), (0, 2), (2, 0)], grid(3, 8, 2, 2, true), sups.clone()));
                     f.extend(indep_family(&format!("{nm} T{{5,9}} J<=1 C<=2"), Some(bw), vec![(1, 2), (0, 3)],
                         [5u64, 9].iter().flat_map(|t| (0..=1u64).flat_map(move |j| (1..=2u64).map(move |c| (ArrSpec::Sporadic { t: *t, j }, c)))).collect(), sups.clone()));
+                    // longer periods with bursts and larger WCETs: the busy-window analysis' offset
+                    // search space (steps of polled callbacks) decides the bound here
+                    let mut lp = indep_family(&format!("{nm} long periods, bursts, WCET<=3 (state cap 60k)"), Some(bw), vec![(0, 3)],
+                        vec![(6u64, 0u64, 3u64), (6, 0, 1), (17, 0, 1), (12, 16, 2), (12, 0, 2), (9, 9, 1)].into_iter().map(|(t, j, c)| (ArrSpec::Sporadic { t, j }, c)).collect(),
+                        vec![SupplySpec::Dedicated]);
+                    for x in lp.iter_mut() {
+                        x.cap = 60_000;
+                    }
+                    f.extend(lp);
                     // short periods, unit costs: several polling points inside one response time,
                     // where the relative priority of polled callbacks decides the bound
                     f.extend(indep_family(&format!("{nm} T{{3,4,7}} J{{0,2}} C=1"), Some(bw), vec![(0, 3), (1, 2)],
@@ -640,6 +657,7 @@ pub fn run(id: &str, ctx: &mut Ctx) -> (String, Value, Vec<String>) {
     let mut total = Acc::default();
     let mut desc = vec![];
     for fam in &fams {
+        STATE_CAP.store(fam.cap, std::sync::atomic::Ordering::Relaxed);
         let acc = Mutex::new(Acc::default());
         let found = Mutex::new(Vec::<Found>::new());
         let chunk = (fam.total / 256).clamp(1, 128);
